@@ -80,7 +80,7 @@ pub struct Def {
     pub ctl: bool,
 }
 
-pub const SHAPES: [(usize, usize); 5] = [(2, 0), (3, 2), (4, 1), (6, 4), (8, 2)];
+pub const SHAPES: [(usize, usize); 6] = [(2, 0), (3, 2), (4, 1), (6, 4), (8, 2), (26, 1)];
 
 impl Def {
     pub fn max_term_degree(&self) -> usize {
@@ -449,6 +449,7 @@ macro_rules! with_stark {
             (4, 1) => $f::<4, 1>($($args),*),
             (6, 4) => $f::<6, 4>($($args),*),
             (8, 2) => $f::<8, 2>($($args),*),
+            (26, 1) => $f::<26, 1>($($args),*),
             _ => panic!("unsupported STARK shape"),
         }
     };
